@@ -307,3 +307,34 @@ PROPS["C19"] = dict(
     assumptions=COMMON_ASSUMPTIONS + ["object-level edits that take no topology argument (infos, subtype) are documented as forbidden on adopted topologies and are not driven",
                                       "writer and adopter are the same process (a second process would only change which addresses are free)"],
 )
+
+
+def _c18_prepare(st, tier):
+    from engine import snapshots
+    snapshots.prepare()
+
+
+_C18_COMMON = dict(extra_sources=["engine/env_fs.c"], ldflags=["-ldl"], prepare=_c18_prepare)
+
+PROPS["C18"] = dict(
+    level_text="Exhaustive within bounds: every bundled Linux / x86 / x86+linux snapshot x applicable component selection x "
+               "configuration is loaded by the real discovery code (well-formedness oracle, determinism, INCLUDE_DISALLOWED vs default "
+               "view, XML round trip); for the Linux snapshots the set P of paths the loader consults is recorded through a libc seam "
+               "and every single removal from P (bound 1) and, thorough, every pair under sys/devices/system (bound 2) is replayed "
+               "against the real loader. Removing a path outside P cannot change behaviour, so bound 1 is complete for single removals "
+               "from the whole snapshot.",
+    technique="environment-deviation-bounded exhaustive exploration of the real Linux/x86 discovery code over a libc file-system seam (openat/fstatat/faccessat/readlinkat/readdir interposition), independent well-formedness oracle",
+    design_ref="DESIGN.md 5 (C18), 2.5",
+    stages=[simple("base", "c18_snapshots", parts=32, deadline={"quick": 240, "thorough": 3000},
+                   args={"quick": ["--stage", "base"], "thorough": ["--stage", "base"]}, **_C18_COMMON),
+            simple("faults", "c18_snapshots", parts=64, deadline={"quick": 240, "thorough": 6000},
+                   args={"quick": ["--stage", "faults"], "thorough": ["--stage", "faults"]}, **_C18_COMMON)],
+    explanation="Fault sequences are enumerated, not sampled: the seam answers ENOENT for the chosen paths and removes them from directory "
+                "listings (a directory hides its subtree). Every faulted load must fail cleanly or give a well-formed topology with no "
+                "assertion, signal, hang or sanitizer report.",
+    bounds={"quick": "base: default + 4 uniform filters + 6 single flags; faults: bound 1 on snapshots with at most 2500 consulted paths, under the default configuration and with every type kept",
+            "thorough": "base: additionally flag pairs and 2 filter+flag combinations; faults: bound 1 on every snapshot under both configurations, bound 2 under sys/devices/system when at most 200 such paths"},
+    assumptions=COMMON_ASSUMPTIONS + ["a removal is modelled as ENOENT for the path and everything below it; short reads and EIO are not injected",
+                                      "numbered directories (cpu12, node3, index0) are not removed (the property's alphabet)",
+                                      "distinct faulted outcomes are counted per worker"],
+)
